@@ -297,7 +297,12 @@ func (p c18) Exec(c *run.Ctx, idx int, raw json.RawMessage) []run.Result {
 		case "unknown":
 			cl.Send(map[string]any{"id": "u", "type": "made_up_type"})
 		case "invalidquery":
-			cl.Send(map[string]any{"id": "iq", "type": "start", "payload": map[string]any{"query": "subscription { nopeField }"}})
+			q := "subscription { nopeField }"
+			if a.Sub == 1 && r.Mono.Subscription != nil && len(r.Mono.Subscription.Fields) > 0 {
+				// a validation error that quotes a long non-ASCII literal of the operation
+				q = "subscription($v: Int = \"" + strings.Repeat("日本語のテキスト", 12+idx%7) + "\") { " + r.Mono.Subscription.Fields[0].Name + " }"
+			}
+			cl.Send(map[string]any{"id": "iq", "type": "start", "payload": map[string]any{"query": q}})
 		case "wait":
 			time.Sleep(time.Duration(a.SleepUs) * time.Microsecond)
 		case "wait-ka":
